@@ -88,8 +88,8 @@ theorem write_untracked (s : Sim) (a : W) (d : Word) (c : Ctx) (ht : c.track = f
 /-- a rejected access (privilege check) is not recorded -/
 theorem violation_unrecorded (s : Sim) (a : W) (d : Word) (c : Ctx) (hp : c.privileged = false) (hu : inUser a = false) :
     (readMem a c s).2.observer = s.observer ∧ (writeMem a d c s).2.observer = s.observer := by
-  obtain ⟨s1, h1, _, _, _, _, _, ho1⟩ := C08.readMem_violation s a c hp hu
-  obtain ⟨s2, h2, _, _, _, _, _, ho2⟩ := C08.writeMem_violation s a d c hp hu
+  obtain ⟨s1, h1, _, _, _, _, _, ho1, _⟩ := C08.readMem_violation s a c hp hu
+  obtain ⟨s2, h2, _, _, _, _, _, ho2, _⟩ := C08.writeMem_violation s a d c hp hu
   rw [h1, h2]; exact ⟨ho1, ho2⟩
 
 /-- a tracked, permitted, non-strict write below the I/O page marks WRITTEN, and MODIFIED exactly when the stored
@@ -104,16 +104,11 @@ theorem write_marks (s : Sim) (a : W) (d : Word) (c : Ctx) (ht : c.track = true)
   intro b
   unfold writeMem
   simp only [hg, ioWritePart, storePart, hio', ht, hs, Bool.false_eq_true, if_false, if_true, Word.setIfInit_nonstrict]
-  simp only [setMem, memAt]
-  by_cases hm : (s.mem[a.toNat]'(a.isLt) != d) = true
-  · simp only [hm, if_true, obsGet_update]
-    by_cases hb : b = a
-    · subst hb; simp [Nat.or_assoc]
-    · simp [hb]
-  · simp only [hm, if_false, obsGet_update, Bool.false_eq_true]
-    by_cases hb : b = a
-    · subst hb; simp
-    · simp [hb]
+  simp only [setMem, memAt, obsGet_update]
+  by_cases hb : b = a
+  · subst hb
+    cases hm : (s.mem[b.toNat]'(b.isLt) != d) <;> simp [hm, Nat.or_assoc]
+  · simp [hb]
 
 /-- `step_in` starts from the empty observer: its result does not depend on what the observer held -/
 theorem stepIn_clears (s : Sim) (o : Std.TreeMap Nat Nat) : stepIn { s with observer := o } = stepIn s := rfl
